@@ -91,7 +91,14 @@ def run(ctx):
     # that the three planned records carry the sequence number into its upper half (replays of earlier records must still fail)
     for b in [{"ops": [], "delivered": 3, "err": False}] + (singles if thorough else rnd.sample(singles, min(len(singles), 24))):
         for (s, dd) in (combos if not b["ops"] else [rnd.choice(combos)]):
-            scheds.append({"ops": b["ops"], "delivered": b["delivered"], "err": b["err"], "suite": s, "dir": dd, "plan": "small", "seq_start": 4294967294})
+            scheds.append({"ops": b["ops"], "delivered": b["delivered"], "err": b["err"], "suite": s, "dir": dd, "plan": "small", "seq_start": "fffffffe"})
+    # the end of the counter: with 2^64 - 2 records behind it a direction can seal two more, and never a third
+    for (s, dd) in combos:
+        scheds.append({"ops": [], "delivered": 2, "err": False, "suite": s, "dir": dd, "plan": "exhaust", "seq_start": "fffffffffffffffe"})
+    # both ends draw randomness from a source that returns 3 bytes per Read: handshake and explicit IVs must not care
+    for (s, dd) in combos:
+        for plan in ("small", "huge"):
+            scheds.append({"ops": [], "delivered": (4 if s == 0xe013 else 3) if plan == "huge" else 3, "err": False, "suite": s, "dir": dd, "plan": plan, "short_rand": True})
     # 3. the abstract Flip instantiated at every bit (thorough) / one bit of every byte (quick) of record 2
     nbits = {}
     for (s, dd) in (combos if thorough else [combos[ctx.seed % 4], combos[(ctx.seed + 1) % 4]]):
@@ -125,6 +132,12 @@ def run(ctx):
             timeouts.append(s)
             continue
         probs = []
+        if s["plan"] == "exhaust":
+            if o["delivered"] > 2:
+                ctx.violation("suite %04x %s: %s" % (s["suite"], s["dir"], o["err_text"]), {"schedule": s, "observed": o})
+            else:
+                ok += 1
+            continue
         if o.get("panic"):
             probs.append("receiver panicked: " + o["panic"])
         if not o["bytes_ok"] or o["delivered"] > s["delivered"]:
@@ -174,6 +187,22 @@ def run(ctx):
         # (fixed ports: another run of these tests on the machine makes them fail; that is not this property's subject)
         ctx.log("repository's own gmtls tests did not run cleanly here; their traces are not part of this run")
         ctx.cov["repository_test_events"] = 0
+    # freshness of explicit IVs under the short-read random source: every 4-byte window of the 16-byte IVs of a run takes a
+    # different value in every record (a stale or zero-filled part would repeat)
+    short_ids = {s["id"] for s in scheds if s.get("short_rand")}
+    nfresh = 0
+    for t in traces:
+        tid = t[0].get("id")
+        if tid in short_ids:
+            ivs = [e["iv"] for e in t if e["ev"] == "enc" and len(e.get("iv", [])) == 16]
+            nfresh += len(ivs)
+            for w in (0, 4, 8, 12):
+                vals = [tuple(iv[w:w + 4]) for iv in ivs]
+                if len(set(vals)) != len(vals):
+                    ctx.violation("suite %04x %s: explicit IVs drawn through a random source with short reads are not fresh: bytes %d..%d repeat across records (%s)"
+                                  % (scheds[tid]["suite"], scheds[tid]["dir"], w, w + 3, [bytes(iv).hex() for iv in ivs[:4]]), {"schedule": scheds[tid], "ivs": ivs[:8]})
+                    break
+    ctx.cov["explicit_ivs_checked_for_freshness"] = nfresh
     for t in traces:
         t.append({"ev": "end"})
 
